@@ -9,6 +9,7 @@ CONSTANTS TS, TE, MaxSp, MRTSQ     \* MRTSQ: set of numerators n, MRTS = n/4
 VARIABLES a, b, mrts, pc, i1, i2, nu1, nu2, ev, vals, path
 vars == <<a, b, mrts, pc, i1, i2, nu1, nu2, ev, vals, path>>
 Neg1 == -1
+Neg4 == -4
 Neg2 == -2
 Neg3 == -3
 Grid == TS..TE
